@@ -129,6 +129,7 @@ func (c *ctx) runTrieJob(j *trieJob, out chan<- batch) {
 			continue
 		}
 		truth := spec.truth(key)
+		div := firstDivergence(spec, key)
 		mk := func(sig, tamper string, node int, root, k string, q Proof, honest bool) func() any {
 			kf := bitsToFelt(k)
 			return func() any {
@@ -173,7 +174,6 @@ func (c *ctx) runTrieJob(j *trieJob, out chan<- batch) {
 				sig:  spec.Impl + ":prove", replay: mk(spec.Impl+":prove", "none", -1, rootHex, key, p, true)})
 			res.Hit("prove-correspondence:" + spec.Impl)
 		}
-		div := firstDivergence(spec, key)
 		nontrivial := len(spec.KVs) > 0
 		res.Case(fmt.Sprintf("%d/%s/honest", j.id, key), nontrivial)
 		switch {
@@ -183,6 +183,17 @@ func (c *ctx) runTrieJob(j *trieJob, out chan<- batch) {
 			res.Hit("honest:" + spec.Impl + ":present")
 		default:
 			res.Hit("honest:" + spec.Impl + ":absent-diverges-at-" + depthBucket(div, spec.Height))
+		}
+		if spec.Height == 251 && len(spec.KVs) > 0 {
+			// the real verifiers run only here: say which path shapes they saw
+			switch {
+			case truth != "0" && len(p) > 0 && p[len(p)-1].Kind == "B":
+				res.Hit("h251:" + verifier + ":present-under-binary-leaf-parent-bit" + key[250:])
+			case truth != "0":
+				res.Hit("h251:" + verifier + ":present-under-edge")
+			default:
+				res.Hit("h251:" + verifier + ":absent-diverges-at-" + depthBucket(div, 251))
+			}
 		}
 		res.Hit(fmt.Sprintf("proof-nodes:%s", sizeBucket(len(p))))
 		if len(p) > 0 {
